@@ -116,6 +116,9 @@ func runC06(c *Ctx) {
 	}
 
 	c06Shape(c, m, parse)
+	if c.Tier == "thorough" && c.goos == "linux" && c.arch == "amd64" {
+		c05BCE(c, m, "C06.bce-crosscheck", []string{"internal/counter"}, fns)
+	}
 }
 
 func c06Shape(c *Ctx, m *Module, parse *ssa.Function) {
